@@ -367,11 +367,39 @@ class Worker:
         return out
 
     # -- comparison --------------------------------------------------------------------
-    def decls(self, out: Output) -> Tuple[Dict[Tuple[str, str], int], int]:
+    @staticmethod
+    def normalized(out: Output, rel: str) -> bytes:
+        data = out.files[rel].read_bytes()
+        ns = getattr(out, "namespace", "")
+        if ns:
+            data = data.replace(ns.encode(), b"NS").replace(ns.upper().encode(), b"NS")
+        return data
+
+    def differing(self, model: Output, control: Output) -> Tuple[set, set]:
+        """Relative paths (per side) of the files that are not identical on both sides."""
+        def key(out: Output, rel: str) -> str:
+            ns = getattr(out, "namespace", "")
+            return rel.replace(ns, "NS") if ns else rel
+
+        m = {key(model, rel): rel for rel in model.files}
+        c = {key(control, rel): rel for rel in control.files}
+        dm, dc = set(), set()
+        for k in set(m) | set(c):
+            if k in m and k in c and self.normalized(model, m[k]) == self.normalized(control, c[k]):
+                continue
+            if k in m:
+                dm.add(m[k])
+            if k in c:
+                dc.add(c[k])
+        return dm, dc
+
+    def decls(self, out: Output, only: Optional[set] = None) -> Tuple[Dict[Tuple[str, str], int], int]:
         counter: Dict[Tuple[str, str], int] = collections.Counter()
         scanned = 0
         ns = getattr(out, "namespace", "")
         for rel, path in out.files.items():
+            if only is not None and rel not in only:
+                continue
             norm = rel.replace(ns, "NS") if ns else rel
             try:
                 found = declscan.decls_of(path, norm)
@@ -412,8 +440,12 @@ class Worker:
             )
         # (2) declarations
         with timed(chk, "scan"):
-            decl_model, scanned = self.decls(model)
-            decl_control, _ = self.decls(control)
+            # identical files declare the same names on both sides: skip them
+            diff_model, diff_control = self.differing(model, control)
+            model.differing, control.differing = diff_model, diff_control  # type: ignore
+            decl_model, scanned = self.decls(model, diff_model)
+            decl_control, _ = self.decls(control, diff_control)
+        chk.count("files_identical_in_model_and_control", len(model.files) - len(diff_model))
         chk.count(f"files_scanned/{target}", scanned)
         chk.count("declarations_compared", sum(decl_model.values()))
         increased = []
@@ -538,6 +570,8 @@ class Worker:
                             for rel, p in sorted(out.files.items()):
                                 if rel.startswith("test/") or "jsonization" in rel:
                                     continue
+                                if rel not in getattr(out, "differing", out.files):
+                                    continue
                                 if rel.endswith(".hpp") or rel.endswith(
                                     ("types.cpp", "constants.cpp", "verification.cpp",
                                      "stringification.cpp", "visitation.cpp", "iteration.cpp")
@@ -593,7 +627,12 @@ class Worker:
             if model.exc is not None:
                 control = self.run_target(control_text, target)
                 outputs.append(control)
-                if control.ok:
+                # ... and the second entity on its own must be fine, too
+                alone = self.run_target(build_model(s.kind, s.control, s.b), target)
+                outputs.append(alone)
+                if control.ok and alone.exc is not None:
+                    chk.hist("outcomes", f"{target}:crash-of-one-name-alone")
+                elif control.ok:
                     sig = harness.crash_signature(model.exc)
                     chk.violation(
                         f"{target}/crash-instead-of-collision-report/{s.kind}",
